@@ -68,6 +68,41 @@ func GenOps(r *hx.Rng, n int, closeOK bool) []Op {
 		}
 		return l
 	}
+	// deep remote chain: 6-10 remote layers k10 <- k11 <- ..., then calls on top of it with the Check of ONE layer,
+	// at any depth, scripted to fail (and with none failing)
+	if t.nextID == 0 && n >= 10 && r.Chance(1, 5) {
+		depth := r.Range(6, 10)
+		for d := 0; d < depth; d++ {
+			p := -1
+			if d > 0 {
+				p = 10 + d - 1
+			}
+			ops = append(ops, Op{Op: "prepare", Key: 9, Parent: p, L: Labels{T: 10 + d}, MOK: true})
+		}
+		t.nextID = depth
+		top := 10 + depth - 1
+		for j, m := 0, r.Range(3, 6); j < m; j++ {
+			var bad []int
+			if r.Chance(4, 5) {
+				bad = []int{r.Range(1, depth)}
+			}
+			key := t.fresh(r)
+			switch r.Intn(3) {
+			case 0:
+				ops = append(ops, Op{Op: "prepare", Key: key, Parent: top, L: NoLabels, MOK: true, CBad: bad})
+				t.kind[key] = 1
+				t.nextID++
+			case 1:
+				ops = append(ops, Op{Op: "view", Key: key, Parent: top, L: NoLabels, CBad: bad})
+				t.kind[key] = 0
+				t.nextID++
+			case 2:
+				if k, ok := t.pick(r, func(k int) bool { return k != 2 }); ok {
+					ops = append(ops, Op{Op: "mounts", Key: k, Parent: -1, L: NoLabels, CBad: bad})
+				}
+			}
+		}
+	}
 	for i := 0; i < n; i++ {
 		var o Op
 		parent := func() int {
